@@ -12,10 +12,14 @@ import NdnModel.Lvs.Match
   LVS model (`root_of_trust`, `validate_user_fns`, `match` on the anchor's name) instead of being
   given as lists.
 
-  Abstraction: `validate_name` returns `checker.check(name, cert_name)`; an exception raised by `check`
-  (an empty packet name — `name[-1]`; a user function that raises) is read as "not allowed".  On a model
+  `validate_name` returns `checker.check(name, cert_name)`; an exception raised by `check` (an empty packet
+  name — `name[-1]`; a user function that raises; `LvsModelError` for an undefined user function) is not
+  caught anywhere on the way to the caller of the validator (`Ndn.C14.check_exception_uncaught`): it is the
+  outcome of the validation (`Verdict.raise`), also when it happens below a fetched certificate.  The class is
+  mapped into `PyErr` by `pyOfLvs` (LvsModelError / SemanticError / RecursionError are `Other`).  On a model
   accepted by the loader with user functions that do not raise, `check` raises only on an empty name
-  (theorem `Ndn.C12.check_total`), and the Data packets of an NDN application have non-empty names.
+  (theorem `Ndn.C12.check_total`).  Trusted: a user function does not raise one of the three classes
+  `CascadeChecker.validate` catches (ValidationFailure, InterestTimeout, InterestNack).
 -/
 namespace Ndn.Cascade
 open Ndn
@@ -23,11 +27,17 @@ open Ndn
 /-- a real name: the list of its components, each TLV-encoded -/
 abbrev LName := List Bytes
 
-/-- `validate_name`'s call `checker.check(name, cert_name)` -/
-def lvsAllowed (m : Lvs.Model) (env : Lvs.FnEnv) (pkt key : LName) : Bool :=
+def pyOfLvs : Lvs.LvsErr → PyErr
+  | .indexError => .indexError
+  | .typeError => .typeError
+  | .attributeError => .attributeError
+  | _ => .other                      -- LvsModelError, SemanticError, RecursionError
+
+/-- `validate_name`'s call `checker.check(name, cert_name)`, exceptions included -/
+def lvsAllowed (m : Lvs.Model) (env : Lvs.FnEnv) (pkt key : LName) : Except PyErr Bool :=
   match Lvs.check m env pkt key with
-  | .ok true => true
-  | _ => false
+  | .ok b => .ok b
+  | .error e => .error (pyOfLvs e)
 
 /-! ### what `_sanity_check` collects, `root_of_trust`, `validate_user_fns` -/
 
@@ -59,12 +69,6 @@ def modelFns (m : Lvs.Model) : List String :=
 /-- `Checker.validate_user_fns()` -/
 def userFnsOk (m : Lvs.Model) (env : Lvs.FnEnv) : Bool := (modelFns m).all fun id => (env id).isSome
 
-def pyOfLvs : Lvs.LvsErr → PyErr
-  | .indexError => .indexError
-  | .typeError => .typeError
-  | .attributeError => .attributeError
-  | _ => .other                      -- LvsModelError, SemanticError, RecursionError
-
 /-- `ta_matches = sum((m[0] for m in checker.match(cert_name)), start=[])` -/
 def anchorMatches (m : Lvs.Model) (env : Lvs.FnEnv) (name : LName) : Except Lvs.LvsErr (List String) :=
   match Lvs.matchNames m env name with
@@ -87,7 +91,7 @@ structure Inst where
   model      : Lvs.Model
   fns        : Lvs.FnEnv
   crypto     : Key → Obj LName → Bool
-  world      : LName → Option (Outcome LName)
+  world      : Interest LName → Option (Outcome LName)
   anchorName : LName
   anchorKey  : Key
 
